@@ -284,6 +284,7 @@ fn parse_str_spec<const N: usize>() {
 }
 
 // @prop C16 C15
+// @tier off
 // @fn BDecoder::parse_byte_str
 // @bound any first length digit and every continuation of 0..=3 bytes
 // @outside longer inputs; huge length prefixes
